@@ -12,10 +12,11 @@ structure DState where
   files : List (Bytes × Bytes) := []
   dirs : List Bytes := []
   connOpen : Bool := false
+  desktop : Bytes := "verif desk".toUTF8.toList
+  user : Option Bytes := some "vuser".toUTF8.toList
 
-def envFixed : Env :=
-  { width := 16, height := 8, desktop := "verif desk".toUTF8.toList, thisHost := "vhost".toUTF8.toList,
-    user := some "vuser".toUTF8.toList }
+def envOf (s : DState) : Env :=
+  { width := 16, height := 8, desktop := s.desktop, thisHost := "vhost".toUTF8.toList, user := s.user }
 
 def joinSlash : List Bytes → Bytes
   | [] => []
@@ -69,22 +70,22 @@ def bodyOf : Bytes → Option Bytes
   | [] => none
   | c :: t => if [13, 10, 13, 10].isPrefixOf (c :: t) then some (t.drop 3) else bodyOf t
 
-def doReq (s : DState) (dirLen : Nat) (bytes : Bytes) (cuts : List Nat) (endk : String) :
+def doReq (s : DState) (dirLen : Nat) (bytes : Bytes) (cuts : List Nat) (endk : String) (race : Bool) :
     DState × String :=
   let cfg : Cfg := { dir := List.replicate dirLen 100, proxy := s.proxy, port := s.port }
   let e : SockEnd := if endk = "keep" then .eagain else .eof
   -- an empty burst on a connection that stays open wakes nobody up: httpProcessInput is not called
   let (o, rest, _) :=
-    if bytes.isEmpty && endk = "keep" then (Outcome.pending, ([] : Bytes), ([] : List W))
+    if bytes.isEmpty && (endk = "keep" || endk = "reset") then (Outcome.pending, ([] : Bytes), ([] : List W))
     else processCallW true cfg (cutChunks bytes cuts) e
   let fs := fsLookup s dirLen
-  let resp0 := respond envFixed cfg fs o
+  let resp0 := respond (envOf s) cfg fs o
   -- proxy hand-over: rfbNewClient peeks 4 bytes for at most 100 ms (websockets.c)
   let accepted : Option (Bool × Nat) :=
     match o with
     | .proxyOk =>
       if rest.length ≥ 4 && "RFB ".toUTF8.toList.isPrefixOf rest then some (true, 0)
-      else if rest.isEmpty then (if endk = "keep" then some (true, 100) else some (false, 0))
+      else if rest.isEmpty then (if endk = "keep" || endk = "reset" then some (true, 100) else some (false, 0))
       else none
     | _ => some (false, 0)
   match accepted with
@@ -114,10 +115,12 @@ def doReq (s : DState) (dirLen : Nat) (bytes : Bytes) (cuts : List Nat) (endk : 
     let pend := match o with
       | .pending => true
       | _ => false
-    let connS := if handed then "handed" else if pend then "open" else "closed"
-    let peerS := if full then "-" else if handed then "open" else if pend then "open" else "eof"
-    ({ s with connOpen := pend },
-     s!"open={openS} real={realS} {respS} conn={connS} peer={peerS} wait={wait} rfb=ok")
+    -- race: the accept that follows in the same rfbHttpCheckFds call closes an old connection still open
+    let connS := if handed then "handed" else if pend && !race then "open" else "closed"
+    let peerS := if full then "-" else if handed then "open" else if pend && !race then "open" else "eof"
+    let newS := if race then " new=open" else ""
+    ({ s with connOpen := pend || race },
+     s!"open={openS} real={realS} {respS} conn={connS} peer={peerS} wait={wait}{newS} rfb=ok")
 
 def dstep (s : DState) (toks : List String) : DState × List String :=
   match toks with
@@ -142,11 +145,29 @@ def dstep (s : DState) (toks : List String) : DState × List String :=
   | ["req", h, c, e] =>
     match unhex? h, s.dirLen with
     | some b, some dl =>
-      if e != "keep" && e != "half" && e != "full" then (s, ["bad-op"]) else
+      if e != "keep" && e != "half" && e != "full" && e != "reset" then (s, ["bad-op"]) else
       match parseCuts c b.length with
-      | some cuts => let (s', o) := doReq s dl b cuts e; (s', [o])
+      | some cuts => let (s', o) := doReq s dl b cuts e false; (s', [o])
       | none => (s, ["bad-op"])
     | _, _ => (s, ["bad-op"])
+  | ["req", h, c, e, "race"] =>
+    match unhex? h, s.dirLen with
+    | some b, some dl =>
+      if e != "keep" then (s, ["bad-op"]) else
+      match parseCuts c b.length with
+      | some cuts => let (s', o) := doReq s dl b cuts e true; (s', [o])
+      | none => (s, ["bad-op"])
+    | _, _ => (s, ["bad-op"])
+  | ["env", d, u] =>
+    match unhex? d with
+    | some d =>
+      if d.contains 0 then (s, ["bad-op"]) else
+      if u = "none" then ({ s with desktop := d, user := none }, ["ok"]) else
+      match unhex? u with
+      | some u => if u.contains 0 then (s, ["bad-op"]) else ({ s with desktop := d, user := some u }, ["ok"])
+      | none => (s, ["bad-op"])
+    | none => (s, ["bad-op"])
+  | ["listener", l] => if l = "4" || l = "6" then (s, ["ok"]) else (s, ["bad-op"])
   | ["newconn"] =>
     match s.dirLen with
     | some _ => ({ s with connOpen := true }, ["old=eof conn=open rfb=ok"])
